@@ -38,12 +38,33 @@ REQUIRED = ["histories", "connections_up", "connections_down",
             "early_port_status", "reconnect_before_stale_close",
             "registry_checks", "registry_checks_in_up_handler", "send_probes",
             "loss_mid_handshake",
-            "barrier_unsupported_path", "reads_carrying_several_messages"]
+            "barrier_unsupported_path", "reads_carrying_several_messages",
+            "connection_level_events_compared", "registry_checks_in_down_handler",
+            "errors_resembling_barrier_unsupported", "messages_split_across_reads",
+            "features_replies_on_stale_connections"]
 TIMEOUT = {"quick": 900, "thorough": 7200}
 
 # (datapath id 0 is a legal id: code that tests "if dpid:" instead of
 #  "is not None" shows up with it)
-DPIDS = [0x11, 0]
+DPIDS = [0x11, 0, (1 << 48) | 0x11]   # (the third differs from the first above bit 47 only)
+
+
+_cons = []
+
+
+def hook_connections ():
+  """Every Connection object the controller creates is noted (a harness-side
+  wrapper around the constructor), so that the events raised on the
+  connection itself can be observed like those on the nexus."""
+  import pox.openflow.of_01 as of_01
+  if getattr(of_01.Connection, "_pvm_hooked", False): return
+  real = of_01.Connection.__init__
+  def init (self, sock, *a, **k):
+    real(self, sock, *a, **k)
+    _cons.append(self)
+    del _cons[:-64]
+  of_01.Connection.__init__ = init
+  of_01.Connection._pvm_hooked = True
 
 
 class PeerModel (object):
@@ -64,6 +85,9 @@ class PeerModel (object):
     self.consumed = 0
     self.accepted = False
     self.order = None       # completion order stamp
+    self.cup = 0; self.cdown = 0; self.cps = []   # events on the connection itself
+    self.con = None
+    self.refeatured = False
 
 
 class Monitor (object):
@@ -143,12 +167,30 @@ class Monitor (object):
       # connections); counted for the record
       self.rep.count("down_without_up_not_judged")
     self.rep.count("connections_down")
+    if not p.lost and not p.aborted and not (p.c.closed or p.c.shut_rd or p.c.shut_wr):
+      self.fire("ConnectionDown raised for a connection that is not lost",
+                "peer %d: its socket is open and nothing happened to it" % p.idx)
+    # the registry as a ConnectionDown handler sees it: the dead connection is
+    # no longer reachable
+    try:
+      core = self.w.core
+      if p.up and e.dpid is not None:
+        self.rep.count("registry_checks_in_down_handler")
+        if core.openflow.getConnection(e.dpid) is e.connection:
+          self.fire("registry still lists the connection while its "
+                    "ConnectionDown is delivered", "dpid %#x" % e.dpid)
+    except Exception:
+      self.fire("registry unreadable inside ConnectionDown",
+                traceback.format_exc()[-300:])
 
   def on_ps (self, e):
     p = self.peer_of(e.connection)
     if p is None: return
     if p.up == 0:
       self.fire("port-status raised before ConnectionUp",
+                "peer %d port %d" % (p.idx, e.ofp.desc.port_no))
+    if p.down:
+      self.fire("port-status raised after ConnectionDown",
                 "peer %d port %d" % (p.idx, e.ofp.desc.port_no))
     p.ps_seen.append(e.ofp.desc.port_no)
 
@@ -159,6 +201,20 @@ class Monitor (object):
     self.peers[idx] = p
     self.by_sock[id(c)] = p
     return p
+
+  def attach (self, p):
+    """Listen on the Connection object itself, once it exists."""
+    if p.con is not None: return
+    for con in reversed(_cons):
+      if con.sock is p.c:
+        p.con = con
+        def up (e): p.cup += 1
+        def down (e): p.cdown += 1
+        def ps (e): p.cps.append(e.ofp.desc.port_no)
+        con.addListenerByName("ConnectionUp", up)
+        con.addListenerByName("ConnectionDown", down)
+        con.addListenerByName("PortStatus", ps)
+        return
 
   def controller_wrote (self, p):
     b = bytes(p.s.rx)
@@ -178,6 +234,17 @@ class Monitor (object):
            and p.barrier_xid is None:
           p.barrier_xid = m["xid"]
     for p in self.peers.values():
+      if p.con is not None:
+        self.rep.count("connection_level_events_compared")
+        if (p.cup, p.cdown, p.cps) != (p.up, p.down, p.ps_seen):
+          self.fire("events on the connection object differ from those on the nexus",
+                    "peer %d after %s: connection saw up=%d down=%d port-status %r, "
+                    "nexus up=%d down=%d port-status %r" %
+                    (p.idx, what, p.cup, p.cdown, p.cps, p.up, p.down, p.ps_seen))
+      if p.features is not None and p.hello and not p.aborted and not p.lost \
+         and p.barrier_xid is None and not p.refeatured:
+        self.fire("handshake stalled: no barrier request after hello and the "
+                  "features reply", "peer %d after %s" % (p.idx, what))
       if p.completed and not p.aborted and p.up != 1 and not p.lost_before_complete():
         self.fire("ConnectionUp not raised after features and barrier replies",
                   "peer %d after %s (up=%d)" % (p.idx, what, p.up))
@@ -253,7 +320,10 @@ def run_history (case, rep):
         mon.after_step("coalesced messages from peer %d" % q.idx)
     for op in list(case["ops"]) + [["end"]]:
       if mon.bad: break
-      hold = False
+      hold = False; split = False
+      op_index = getattr(mon, "_opi", 0) + 1; mon._opi = op_index
+      if op[-1] == "split":
+        op = op[:-1]; split = True
       if op[-1] == "hold":
         op = op[:-1]; hold = True
       k = op[0]
@@ -263,8 +333,9 @@ def run_history (case, rep):
       if k == "end": break
       if k == "connect":
         if op[1] in mon.peers: continue
-        mon.connect(op[1])
+        pnew = mon.connect(op[1])
         w.run()
+        mon.attach(pnew)
         mon.after_step("connect")
         continue
       if k == "send":
@@ -296,6 +367,7 @@ def run_history (case, rep):
       if p is None or p.lost: continue
       if k == "lose":
         how = op[2]
+        mon.lose(p)
         if how == "eof": p.s.close()
         elif how == "app":
           # the application drops the connection itself (public API); the
@@ -313,7 +385,6 @@ def run_history (case, rep):
           # the next write by the controller fails fatally; provoke one
           p.c.send_script = ["fatal"]
           p.s.send(ofwire.enc_message("echo_request", dict(xid=3, body=b"x")))
-        mon.lose(p)
         w.run()
         mon.after_step("loss(%s)" % how)
         continue
@@ -323,8 +394,25 @@ def run_history (case, rep):
       if kind == "hello":
         raw = ofwire.enc_message("hello", dict(xid=0)); p.hello = True
       elif kind == "features":
-        if p.features is not None: continue
-        d = DPIDS[op[3]]
+        if p.features is not None:
+          # a second features reply, on a connection that is up (an
+          # application asked again): nothing about the registry changes -
+          # in particular a stale connection does not take the slot back
+          if not (p.completed and not p.aborted and p.up == 1): continue
+          if mon.registry.get(p.features) is None: continue
+          raw = ofwire.enc_message("features_reply", dict(
+            xid=77, datapath_id=p.features, n_buffers=0, n_tables=1, capabilities=0,
+            actions=0, ports=[ctl.phy_port(1), ctl.phy_port(2)]))
+          p.refeatured = True
+          # (the port view is reset by it: C17's business, not judged here)
+          rep.count("features_replies_on_established_connections")
+          if mon.registry.get(p.features) is not p:
+            rep.count("features_replies_on_stale_connections")
+          p.s.send(raw)
+          w.run()
+          mon.after_step("second features reply from peer %d" % p.idx)
+          continue
+        d = DPIDS[op[3] % len(DPIDS)]
         raw = ofwire.enc_message("features_reply", dict(
           xid=1, datapath_id=d, n_buffers=0, n_tables=1, capabilities=0,
           actions=0, ports=[ctl.phy_port(1), ctl.phy_port(2)]))
@@ -358,7 +446,8 @@ def run_history (case, rep):
       elif kind == "port_status":
         no = op[3]
         raw = ofwire.enc_message("port_status", dict(
-          xid=0, reason=2, desc=ctl.phy_port(no)))
+          xid=0, reason=(no + len(p.early_ps) + len(p.ps_expected)) % 3,
+          desc=ctl.phy_port(no)))
         if p.aborted: pass
         elif p.completed: p.ps_expected.append(no)
         elif p.features is not None:
@@ -374,9 +463,23 @@ def run_history (case, rep):
       elif kind == "error":
         raw = ofwire.enc_message("error", dict(xid=12345, type=1, code=0,
                                                data=b"zz"))
+      elif kind == "error_near":
+        # errors that share two of the three things which make an error the
+        # "barrier not supported" answer (barrier xid, BAD_REQUEST, BAD_TYPE)
+        # but not all three: the handshake goes on waiting
+        bx = p.barrier_xid if p.barrier_xid is not None else 12345
+        v = op[3] % 3
+        x, t, c = [(bx, 1, 0), ((bx + 1) & 0xffffffff, 1, 1), (bx, 2, 1)][v]
+        raw = ofwire.enc_message("error", dict(xid=x, type=t, code=c,
+                                               data=b"\x01\x10\0\x08"))
+        rep.count("errors_resembling_barrier_unsupported")
       if raw is None: continue
       if p.aborted and kind == "barrier_wrong":
         pass
+      if split and len(raw) > 9:
+        # the message reaches the controller in two reads
+        p.c.recv_script = [[3, 8, 9, len(raw) - 1][op_index % 4]]
+        rep.count("messages_split_across_reads")
       p.s.send(raw)
       if hold and not p.aborted:
         # the controller does not get to run: the next message of this peer
@@ -398,6 +501,7 @@ def run_history (case, rep):
     try:
       for p in mon.peers.values():
         if not p.lost:
+          p.lost = True
           p.s.close()
       w.run()
       core.openflow.removeListeners([])  # no-op; listeners removed below
@@ -422,6 +526,7 @@ _world = {}
 def ensure_world ():
   if "w" not in _world:
     w = simnet.World()
+    hook_connections()
     w.start_openflow()
     _world["w"] = w
   return _world["w"]
@@ -443,7 +548,7 @@ def gen_single (shard, nshards):
   asynchronous messages, completed by the right barrier answer."""
   hs = [("hello",), ("features", 0), ("desc",)]
   asyncs = [("port_status", 1), ("port_status", 2), ("echo",), ("packet_in",),
-            ("error",), ("barrier_wrong",)]
+            ("error",), ("barrier_wrong",), ("error_near", 0), ("error_near", 2)]
   i = 0
   for a1, a2 in itertools.combinations(asyncs, 2):
     items = hs + [a1, a2]
@@ -476,14 +581,15 @@ def gen_multi (rng, n, maxlen):
       r = rng.random()
       i = rng.randrange(3)
       if r < 0.15: ops.append(["connect", i])
-      elif r < 0.30: ops.append(["msg", i, "features", rng.randrange(2)])
+      elif r < 0.30: ops.append(["msg", i, "features", rng.randrange(3)])
       elif r < 0.40: ops.append(["msg", i, "hello"])
       elif r < 0.58:
         ops.append(["msg", i, rng.choice(["barrier_ok", "barrier_ok",
                                           "barrier_err", "barrier_wrong"])])
       elif r < 0.68: ops.append(["msg", i, "port_status", rng.randrange(1, 4)])
       elif r < 0.75:
-        ops.append(["msg", i, rng.choice(["echo", "packet_in", "error", "desc"])])
+        k = rng.choice(["echo", "packet_in", "error", "desc", "error_near"])
+        ops.append(["msg", i, k] + ([rng.randrange(3)] if k == "error_near" else []))
       elif r < 0.87:
         ops.append(["lose", i, rng.choice(["eof", "reset", "fatal", "app"])])
       else:
@@ -491,6 +597,9 @@ def gen_multi (rng, n, maxlen):
     if rng.random() < 0.5:
       for o in ops:
         if o[0] == "msg" and o[2] != "features" and rng.random() < 0.4: o.append("hold")
+    elif rng.random() < 0.5:
+      for o in ops:
+        if o[0] == "msg" and rng.random() < 0.4: o.append("split")
     yield dict(ops=ops)
 
 
@@ -503,6 +612,8 @@ def gen_reconnect (rng, n):
            ["connect", 1], ["msg", 1, "hello"], ["msg", 1, "features", d]]
     if rng.random() < 0.5: ops.append(["send", d])
     ops += [["msg", 1, rng.choice(["barrier_ok", "barrier_err"])], ["send", d]]
+    if rng.random() < 0.4:
+      ops += [["msg", 0, "features", d], ["send", d]]
     tail = [["lose", 0, rng.choice(["eof", "reset", "fatal", "app"])], ["send", d],
             ["msg", 1, "port_status", 2], ["send", d],
             ["lose", 1, rng.choice(["eof", "reset"])], ["send", d]]
